@@ -270,6 +270,16 @@ func (propC03) Check(r *Run) []Violation {
 			for _, w := range writes {
 				if w.Name == x.Backend && w.At >= failAt && w.At <= y.ArrivedAt && routableStr(w.Status) && w.Who == "hc" {
 					readmitted = true
+					// "a later check": was the probe behind this write sent after the failure?
+					var probeAt time.Duration = -1
+					for _, h := range r.Exchanges {
+						if h.Kind == "health" && h.Backend == x.Backend && h.ArrivedAt <= w.At && h.ArrivedAt > probeAt {
+							probeAt = h.ArrivedAt
+						}
+					}
+					if probeAt >= 0 && probeAt < failAt {
+						r.Sim.Probe("c03.readmitted-by-a-probe-sent-before-the-failure")
+					}
 				}
 			}
 			if !readmitted {
